@@ -410,11 +410,8 @@ impl CaseInput for ReqCase {
                     note!(res);
                 } else {
                     let c = base.set_revocation_url(RevocationUrl::new(self.url.clone()).unwrap());
-                    let tok = if self.revoke_mode == 0 {
-                        StandardRevocableToken::AccessToken(AccessToken::new(self.a.clone()))
-                    } else {
-                        StandardRevocableToken::RefreshToken(RefreshToken::new(self.a.clone()))
-                    };
+                    // built by the constructor, a `From` conversion (owned / by reference) or read back from serde
+                    let tok = make_revocable(&self.a, self.revoke_mode != 0, self.order >> 7);
                     let res = extras!(c.revoke_token(tok).unwrap()).request(&http);
                     note!(res);
                 }
